@@ -336,6 +336,9 @@ func (f *Frame) localAt(name string, b *ssa.BasicBlock, st *State) *Value {
 				if dx, ok2 := d.X.(ssa.Instruction); ok2 && vb.Block().Dominates(dx.Block()) {
 					best, bestAddr = d.X, d.IsAddr
 				}
+			} else if _, ok2 := d.X.(ssa.Instruction); ok2 {
+				// a constant or parameter (the initial value) is always the earliest definition
+				best, bestAddr = d.X, d.IsAddr
 			}
 			continue
 		}
